@@ -242,7 +242,7 @@ impl Prop for C18 {
     }
     fn cases(&self, tier: Tier) -> usize {
         match tier {
-            Tier::Quick => 2500,
+            Tier::Quick => 5000,
             Tier::Thorough => 30000,
         }
     }
